@@ -860,9 +860,15 @@ regp_recv(RegP *p, RPMaybeFrame *mf)
         /* Send EBUSY reply, based on fallback buffer */
         return early_ebusy(p, &fb);
     case ENOMEM:
-        /* Send ERXOVERFLOW reply, based on fallback buffer */
+        /* Send ERXOVERFLOW reply, based on fallback buffer. The frame was not
+         * parsed, so the raw octets are taken from where the sink stored them:
+         * behind the RPFrame instance, as many as made it into the block. */
         byte_buffer_rewind(&fb);
-        byte_buffer_add(&fb, mf->frame->raw.memory, RP_HEADER_SIZE);
+        {
+            const size_t stored = cs.buffer.used - sizeof(RPFrame);
+            byte_buffer_add(&fb, cs.buffer.data + sizeof(RPFrame),
+                            (stored < RP_HEADER_SIZE) ? stored : RP_HEADER_SIZE);
+        }
         return early_erxoverflow(p, &fb);
     default:
         /* Unexpected error. Really shouldn't happen. */
